@@ -50,7 +50,7 @@ def projection(obs, A, norm):
 def run(tier, seed):
     return st.run_structural(
         "C10", tier, seed, "ZeepVerif.Props.C10", "ZeepVerif/Audit/C10.lean",
-        [("gen", 250, 6000), ("gencyc", 100, 3000), ("gencollide", 30, 500), ("gentopo", 200, 4000)], oracle, projection, CHECKER, extra_props=[('ZeepVerif.Props.C10Read', 'ZeepVerif/Audit/C10Read.lean'), ('ZeepVerif.Props.C10Graph', 'ZeepVerif/Audit/C10Graph.lean')], extra=st.refinement_coverage,
+        [("gen", 250, 6000), ("gencyc", 100, 3000), ("gencollide", 30, 500), ("gentopo", 200, 4000)], oracle, projection, CHECKER, extra_props=[('ZeepVerif.Props.C10Read', 'ZeepVerif/Audit/C10Read.lean'), ('ZeepVerif.Props.C10Graph', 'ZeepVerif/Audit/C10Graph.lean'), ('ZeepVerif.Props.C10All', 'ZeepVerif/Audit/C10All.lean')], extra=st.refinement_coverage,
         note_assumptions=["the adversarial URI pool of Spec.Gen.uriPool (equal last segments, equal three-letter abbreviations, trailing slash, dots, "
                           "dashes, digits, URNs, query and fragment), 1-4 namespaces per set, declared at the root, by targetNamespace only, and in imported files, in every import order the graph generator produces"],
         rule_note="The oracle recovers the assignment module<->URI<->prefix from the program itself (module headers, struct prefix and namespaces attributes) and checks that it is a bijection, "
